@@ -149,10 +149,10 @@ using RG = gmlc::libguarded::rcu_guarded<List>;
 
 // ---------------------------------------------------------------- programs
 enum OpK : uint8_t {
-    H_R, H_W, REL, BEGIN, NEXT, DEREF, TRAV, ERASE_CUR, ERASE_AGAIN, PUSH_F, PUSH_B, EMPL_F, EMPL_B, NOPK
+    H_R, H_W, REL, BEGIN, NEXT, DEREF, TRAV, ERASE_CUR, ERASE_AGAIN, AWAIT_MUT, PUSH_F, PUSH_B, EMPL_F, EMPL_B, NOPK
 };
 const char* opk[] = {"lock_read", "lock_write", "release", "begin", "++it", "*it", "traverse", "erase(it)",
-                     "erase(same it)", "push_front", "push_back", "emplace_front", "emplace_back"};
+                     "erase(same it)", "(wait until another thread has completed a mutation)", "push_front", "push_back", "emplace_front", "emplace_back"};
 struct Op {
     uint8_t k;
     int arg;
@@ -195,6 +195,7 @@ struct MutRec {
     uint64_t inv, ret;
     bool noop;
     bool maybe = false;  // failed with an injected allocation failure: may or may not have taken effect
+    int fiber = -1;
 };
 struct TravRec {
     uint64_t inv, ret;
@@ -415,7 +416,7 @@ struct Interp {
                 m.acq_seq = last_acquire_seq();
                 m.ret = stamp();
                 m.noop = false;
-                g_muts[g_nmuts++] = m;
+                m.fiber = self(); g_muts[g_nmuts++] = m;
                 have_pending = false;
                 it = nx;
                 if (solo) {
@@ -424,6 +425,15 @@ struct Interp {
                     expect = nxv;
                     check_it("iterator returned by erase()");
                 }
+                break;
+            }
+            case AWAIT_MUT: {
+                int mine = self();
+                await([mine] {
+                    for (int i = 0; i < g_nmuts; i++)
+                        if (g_muts[i].fiber != mine) return true;
+                    return false;
+                });
                 break;
             }
             case ERASE_AGAIN: {
@@ -436,7 +446,7 @@ struct Interp {
                 m.acq_seq = last_acquire_seq();
                 m.ret = stamp();
                 m.noop = true;
-                g_muts[g_nmuts++] = m;
+                m.fiber = self(); g_muts[g_nmuts++] = m;
                 break;
             }
             case PUSH_F:
@@ -458,7 +468,7 @@ struct Interp {
                 m.acq_seq = last_acquire_seq();
                 m.ret = stamp();
                 m.noop = false;
-                g_muts[g_nmuts++] = m;
+                m.fiber = self(); g_muts[g_nmuts++] = m;
                 have_pending = false;
                 if (o.k == PUSH_F || o.k == EMPL_F) ref.insert(ref.begin(), o.arg);
                 else ref.push_back(o.arg);
@@ -500,7 +510,7 @@ struct Interp {
                 pending.ret = stamp();
                 pending.noop = false;
                 pending.maybe = true;
-                g_muts[g_nmuts++] = pending;
+                pending.fiber = self(); g_muts[g_nmuts++] = pending;
                 have_pending = false;
             }
             if (o.k == H_R || o.k == H_W) {
@@ -782,6 +792,12 @@ TProg reaper(int times)
     }
     return t;
 }
+// a reader whose handle is first used while the list is still empty, and which keeps using the same handle
+// after another thread has inserted: the handle must protect what it reaches later all the same
+TProg early_reader(bool write = false)
+{
+    return {{(uint8_t)(write ? H_W : H_R), 0}, {BEGIN, 0}, {AWAIT_MUT, 0}, {BEGIN, 0}, {DEREF, 0}, {NEXT, 0}, {DEREF, 0}, {TRAV, 0}, {REL, 0}};
+}
 TProg pusher(std::vector<std::pair<int, int>> ops)
 {
     TProg t = {{H_W, 0}};
@@ -858,6 +874,9 @@ void make_items(const Options& o, std::vector<Item>& items)
     add(2, {pusher({{PUSH_F, 10}, {PUSH_B, 11}}), pusher({{PUSH_B, 12}, {PUSH_F, 13}})}, 2, 4);
     add(2, {pusher({{PUSH_F, 10}}), eraser(0), eraser(1)}, 2, 3);
     add(1, {erase_all(1), pusher({{PUSH_B, 10}}), traverser(false)}, 2, 3);
+    // the list starts empty
+    add(0, {early_reader(), pusher({{PUSH_F, 10}}), eraser(0)}, 2, 3);
+    add(0, {early_reader(), pusher({{PUSH_B, 10}, {PUSH_B, 11}}), eraser(0), reaper(1)}, 2, 3);
     if (thorough) {
         add(2, {traverser(false), traverser(true), pusher({{PUSH_F, 10}}), eraser(1)}, 2, 2);
         add(3, {traverser(false), erase_all(3), pusher({{PUSH_B, 10}, {PUSH_F, 11}})}, 2, 3);
@@ -914,6 +933,9 @@ void make_items(const Options& o, std::vector<Item>& items)
     add(2, {eraser(0), eraser(0)}, 3, 4);
     add(2, {eraser(1), eraser(1), reaper(1)}, 2, 3);
     add(1, {eraser(0, true), eraser(0)}, 3, 4);
+    // the list starts empty
+    add(0, {early_reader(), pusher({{PUSH_F, 10}}), eraser(0)}, 2, 3);
+    add(0, {early_reader(), pusher({{PUSH_B, 10}}), eraser(0), reaper(1)}, 2, 3);
     if (thorough) {
         add(3, {pauser(2), eraser(1), reaper(1), reaper(1)}, 2, 2);
         add(2, {pauser(1), pauser(1), erase_all(2), reaper(1)}, 2, 2);
@@ -937,6 +959,10 @@ void make_items(const Options& o, std::vector<Item>& items)
     add(2, {pauser(1), eraser(0), pusher({{PUSH_F, 10}})}, 2, 3);
     add(2, {pauser(1), pauser(1), eraser(1), reaper(1)}, 2, 2);
     add(2, {pauser(1), eraser(0), reaper(1), reaper(1)}, 2, 2);
+    // the list starts empty
+    add(0, {early_reader(), pusher({{PUSH_F, 10}}), eraser(0)}, 2, 3);
+    add(0, {early_reader(), pusher({{PUSH_B, 10}, {PUSH_B, 11}}), eraser(0), reaper(1)}, 2, 3);
+    add(0, {early_reader(true), pusher({{PUSH_F, 10}}), eraser(0), reaper(1)}, 2, 3);
     if (thorough) {
         // systematic: traverser kind x eraser kind x reaper kind x list size
         for (int n = 2; n <= 3; n++) {
